@@ -94,7 +94,7 @@ def axis_dir(r):
 CUT = 1e-4
 UP = 1.0 + 2.0 ** -52
 DN = 1.0 - 2.0 ** -53
-NEAR_CUT_NORMS = [CUT, CUT * UP, CUT * DN, 5e-5, 9.9e-5, 1.01e-4, 1.5e-4, 1.99e-4, 2e-4, 2e-4 * UP,
+NEAR_CUT_NORMS = [CUT, CUT * UP, CUT * DN, 5e-5, 9.9e-5, 1.0000000002e-4, 1.0000000004e-4, 1.0000000005e-4, 1.00000001e-4, 1.01e-4, 1.5e-4, 1.99e-4, 2e-4, 2e-4 * UP,
                   2.000000001e-4, 2.0000000033e-4, 2.0000000034e-4, 2.00000001e-4, 2.001e-4, 2.5e-4, 4e-4, 1e-3, 1e-2]
 
 
@@ -138,8 +138,8 @@ def gen_quat(r, style):
         q = list(true_exp(rv))
         return q if r.random() < 0.5 else [-x for x in q]
     if style == "at-cut":
-        # vector part of norm exactly (or one ulp around) the logarithm's cut-off
-        vn = r.choice([CUT, CUT * UP, CUT * DN])
+        # vector part of norm exactly (or one ulp around) the logarithm's cut-off 5e-5 (and the former one, 1e-4)
+        vn = r.choice([5e-5, 5e-5 * UP, 5e-5 * DN, 5e-5, 5e-5 * UP, CUT, CUT * UP, CUT * DN])
         d = axis_dir(r)
         w = math.sqrt(1.0 - vn * vn) * r.choice([1.0, -1.0])
         return [w] + [vn * x for x in d]
@@ -613,9 +613,11 @@ def check_mean(cases, H, Dm, P, stats):
 def witnesses():
     """inputs of the `…_counterexample` theorems and boundary cases, run first in every run"""
     one = [1.0, 0.0, 0.0, 0.0]
-    ws = [mk_qsum([one], [[2.000000001e-4, 0.0, 0.0]], style="witness"),          # log_exp_cutoff_sliver_counterexample
+    ws = [mk_qsum([one], [[2.000000001e-4, 0.0, 0.0]], style="witness"),          # witness of the defect repaired in de34974 (regression case)
           mk_qexp([[2.000000001e-4, 0.0, 0.0]], style="witness"),
           mk_qexp([[CUT, 0.0, 0.0], [0.0, CUT * UP, 0.0], [0.0, 0.0, CUT * DN], [2e-4, 0.0, 0.0]], style="witness"),
+          mk_qexp([[1.0000000002e-4, 0.0, 0.0], [0.0, 1.0000000005e-4, 0.0]], style="witness"),   # both sides of 2 asin(5e-5)
+          mk_qlog([[math.sqrt(1 - 2.5e-9), 5e-5, 0.0, 0.0], [-math.sqrt(1 - 2.5e-9), 0.0, 5e-5 * UP, 0.0]], style="witness"),
           mk_qlog([[math.sqrt(1 - 1e-8), CUT, 0.0, 0.0], [-math.sqrt(1 - 1e-8), 0.0, CUT * UP, 0.0], [0.0, 1.0, 0.0, 0.0], [-0.0, 0.0, 0.0, 1.0]], style="witness"),
           mk_qexp([], style="empty"), mk_qlog([], style="empty"), mk_qsum([one], [], style="empty"), mk_qdiff([], [one], style="empty"),
           mk_qmean([0.5, 0.5], [one, [0.6, 0.8, 0.0, 0.0]], style="random"),
@@ -734,8 +736,8 @@ def run(ctx):
             what = ("with a negative central weight and a wide spread the centre is not the eigenvector of the largest eigenvalue of sum w_i q_i q_i^T "
                     "(witness: centre 1, sigma points exp(+-(1.5,0,0)), weights (-1,1,1): result (0,+-1,0,0), a half turn away); " + what)
         if key == SLIVER_KEY:
-            what = ("for 2e-4 < |r| <= 2 asin(1e-4) = 2.0000000033e-4 the exponential is regular but the logarithm's own cut-off "
-                    "(|vec| = sin(|r|/2) <= 1e-4) returns 0: the round trip is off by |r|, up to 3.4e-13 rad above the stated bound 2e-4; " + what)
+            what = ("regression of the defect repaired in de34974: with the logarithm's cut-off at |vec| = sin(|r|/2) <= 1e-4 the round trip returns 0 "
+                    "for 2e-4 < |r| <= 2 asin(1e-4) = 2.0000000033e-4 and is off by |r|, up to 3.4e-13 rad above the stated bound 2e-4; " + what)
         ctx.violation(key, "%s (%d failing columns in this run)" % (what, len(lst)),
                       {"harness": "h_quat", "input_lines": ins, "metas": metas, "observed": [obs[:1500]],
                        "note": "round trips: the line is the first call, the check feeds its result to the inverse function; two lines = a case and its sibling"})
@@ -762,8 +764,8 @@ def run(ctx):
     ctx.coverage.update({
         "evaluations": len(allcases), "distinct_nontrivial": len(distinct),
         "rule": "batches of width 1..6 (base quaternion matrices of 1..3 columns, only column 0 read) over styles: rotation vectors general in [0, pi), "
-                "around both cut-offs (norms 5e-5 .. 1e-2 incl. 1e-4 and 2e-4 +- 1 ulp and the sliver up to 2 asin(1e-4)), within 1e-3 .. 4e-16 of pi, zero/subnormal; "
-                "unit quaternions uniform on S^3, w < 0, near identity, vector part at the cut-off +- 1 ulp, near half turn (|w| from 0 to 1e-3, both signs, -0.0), +-identity; "
+                "around both cut-offs (norms 5e-5 .. 1e-2 incl. 1e-4 +- 1 ulp, both sides of 2 asin(5e-5), 2e-4 +- 1 ulp and the former sliver up to 2 asin(1e-4)), within 1e-3 .. 4e-16 of pi, zero/subnormal; "
+                "unit quaternions uniform on S^3, w < 0, near identity, vector part at the cut-off 5e-5 +- 1 ulp (and at the former 1e-4), near half turn (|w| from 0 to 1e-3, both signs, -0.0), +-identity; "
                 "differences of independent / close / double-cover / half-turn-apart pairs, each re-run with negated operands; every result fed back through the real "
                 "inverse function (second phase); means: random, clustered, all +-q, symmetric sigma-point layouts with non-negative and with unscented weights, single column, "
                 "each re-run with negated and with permuted inputs. every case is distinct by construction (random draws); distinct = distinct input lines",
